@@ -233,6 +233,17 @@ set changes neither the files nor the marker nor the name. -/
 theorem session_bootstrap_keeps_everything {α} (ge : α → α → Bool) (s : Sess α) (e : Eval α) :
     sstep ge s (.bootEval e) = s := rfl
 
+/-- **File name from model name: different models, different files** (names that differ by one
+special character, by case, by a blank or by a look-alike included): the map is injective, so the
+per-name files of the session / world model are distinct files of the directory. -/
+theorem file_name_injective (a b : String) (h : iterFileName a = iterFileName b) : a = b := by
+  have h2 := congrArg String.toList h
+  simp only [iterFileName, String.toList_append] at h2
+  have h3 := List.append_cancel_left (List.append_cancel_right h2)
+  exact String.toList_inj.mp h3
+
+example : iterFileName "mnl:time" = "__mnl:time.iter" ∧ iterFileName "mnl:time" ≠ iterFileName "mnl_time" := by decide
+
 /-! ### several objects in one working directory -/
 
 /-- **Whatever the number of objects and however their operations interleave** (objects sharing a
